@@ -552,6 +552,85 @@ func Unlock(m *sync.Mutex) {
 	m.Unlock()
 }
 
+// ---- sync.Pool and sync.Once
+//
+// A pool is modelled as a stack of its own per execution (what Put stores is what the next Get of this
+// execution returns, else New()), so that an execution is a function of its choices; Put is a release and Get
+// an acquire on the pool (the objects handed over carry the clock of the goroutine that put them back).
+// Once.Do is the real Do bracketed by a lock of the model that belongs to the Once: callers are ordered, the
+// first runs f, the others wait for it and inherit its clock.
+
+var (
+	poolMu     sync.Mutex
+	poolStacks = map[*schedT]map[*sync.Pool][]any{}
+	onceMu     sync.Mutex
+	onceLocks  = map[*sync.Once]*sync.Mutex{}
+)
+
+func PoolGet(p *sync.Pool) any {
+	if !schedOn() || s.aborting {
+		return p.Get()
+	}
+	sc := s
+	l := sc.lockOf(reflect.ValueOf(p).Pointer())
+	joinVC(sc.cur, l.vc)
+	poolMu.Lock()
+	st := poolStacks[sc]
+	var x any
+	have := false
+	if n := len(st[p]); n > 0 {
+		x, have = st[p][n-1], true
+		st[p] = st[p][:n-1]
+	}
+	poolMu.Unlock()
+	if have {
+		return x
+	}
+	if p.New != nil {
+		return p.New()
+	}
+	return nil
+}
+
+func PoolPut(p *sync.Pool, x any) {
+	if !schedOn() || s.aborting {
+		p.Put(x)
+		return
+	}
+	sc := s
+	l := sc.lockOf(reflect.ValueOf(p).Pointer())
+	me := sc.cur
+	l.vc = append([]int{}, me.vc...)
+	me.vc[me.id]++
+	poolMu.Lock()
+	if poolStacks[sc] == nil {
+		// one scheduler value per execution: the stacks of earlier executions are dropped
+		for k := range poolStacks {
+			delete(poolStacks, k)
+		}
+		poolStacks[sc] = map[*sync.Pool][]any{}
+	}
+	poolStacks[sc][p] = append(poolStacks[sc][p], x)
+	poolMu.Unlock()
+}
+
+func OnceDo(o *sync.Once, f func()) {
+	if !schedOn() || s.aborting {
+		o.Do(f)
+		return
+	}
+	onceMu.Lock()
+	m := onceLocks[o]
+	if m == nil {
+		m = &sync.Mutex{}
+		onceLocks[o] = m
+	}
+	onceMu.Unlock()
+	Lock(m)
+	o.Do(f)
+	Unlock(m)
+}
+
 // ---- RWMutex hooks (write side shares the mutex shadow; read locks are counted)
 
 func RWLock(m *sync.RWMutex) {
